@@ -339,6 +339,8 @@ class AsyncFIXConnection:
             try:
                 if not self._socket_reader:
                     # Socket was not connected, just wait
+                    #  (whatever the last connection left unprocessed is dropped)
+                    self._msg_buffer = b""
                     await asyncio.sleep(1)
                     if self.connection_role == ConnectionRole.INITIATOR:
                         if time.time() - last_connect > self.heartbeat_period * 1.5:
